@@ -21,6 +21,8 @@ RULE = ('Hypothesis: lists of 0..8 elements (objects, or dicts with '
         'exact reverse, batch = slice of the full order, input list and '
         'elements unchanged.  Non-trivial: >= 3 elements with >= 1 duplicate '
         'key and >= 1 inversion in input order.  Distinct = case hash.')
+RULE += (
+         'Also: item sorts combined with a batch window. ')
 ASSUMPTIONS = [
     'keys inside one list are mutually comparable (one type, plus None / '
     'missing)',
